@@ -453,6 +453,18 @@ var c20pool = []c20val{
 		return d
 	}, "{a:1}"},
 	{func() starlark.Value { return c20newMsgInt(c20old, "a", 3) }, "Old(a=3)"},
+	// content that text formats must quote or escape faithfully
+	{func() starlark.Value { return starlark.String("key:  value  #c {x: 1} <y> \"q\" 'r' \\ \n\t[z]: 2;,") }, "tricky-str"},
+	{func() starlark.Value { return starlark.Bytes("a:  b\x00\"\n\\ {}: 1  #") }, "tricky-bytes"},
+	{func() starlark.Value {
+		return starlark.NewList([]starlark.Value{starlark.String("x:  y"), starlark.String(" lead and trail  "), starlark.String("#not a comment: 1")})
+	}, "[tricky-strs]"},
+	{func() starlark.Value {
+		d := starlark.NewDict(2)
+		d.SetKey(starlark.String("k:  1"), starlark.String("v:  2"))
+		d.SetKey(starlark.String(" "), starlark.String("  "))
+		return d
+	}, "{tricky-ss}"},
 	{func() starlark.Value {
 		d := starlark.NewDict(2)
 		d.SetKey(starlark.String("s"), starlark.String("ok-first"))
@@ -521,7 +533,7 @@ func c20valuesFor(field string) []int {
 	case field == "m_isub":
 		return byDesc("{1:sub-dict}")
 	case field == "m_ss":
-		return byDesc("{\"k\":\"v\"}")
+		return byDesc("{\"k\":\"v\"}", "{tricky-ss}")
 	case field == "m_u64":
 		return byDesc("{2^64-1:-2^63,5:7}")
 	case field == "r_rec":
@@ -555,7 +567,7 @@ func c20valuesFor(field string) []int {
 	case shape == "rep" && kind == "int64":
 		return byDesc("[int64 extremes]", "[2^64-1,0]")
 	case shape == "rep" && kind == "string":
-		return byDesc("[\"a\",\"b\"]")
+		return byDesc("[\"a\",\"b\"]", "[tricky-strs]")
 	case shape == "rep" && kind == "bytes":
 		return byDesc("[bytes]")
 	case shape == "rep" && kind == "enum":
